@@ -380,4 +380,81 @@ Section Parked.
         rewrite <- Hk, Hkx. reflexivity.
       + apply Forall_forall. exact Hko.
   Qed.
+
+  Lemma NoDup_fst_inj {K V} (l : list (K * V)) k v v' :
+    NoDup (map fst l) -> In (k, v) l -> In (k, v') l -> v = v'.
+  Proof.
+    induction l as [|[k0 v0] l IH]; cbn; intros Hn H1 H2; [contradiction|].
+    inversion Hn as [|? ? Hni Hn']; subst.
+    destruct H1 as [H1|H1], H2 as [H2|H2].
+    - congruence.
+    - exfalso. injection H1 as -> ->. apply Hni. apply in_map_iff. exists (k, v'). split; [reflexivity|exact H2].
+    - exfalso. injection H2 as -> ->. apply Hni. apply in_map_iff. exists (k, v). split; [reflexivity|exact H1].
+    - exact (IH Hn' H1 H2).
+  Qed.
+
+  (* after a wake of any kind (faulty or not) every parked command that is not in the
+     delivered prefix — the failing one, the later ones of that node, and everything
+     parked for other nodes — is still parked under its key, unchanged *)
+  Theorem undelivered_stay w faults line m n b k pm :
+    Inv vlt w -> decode (proto_of w) line = DecOk m -> m_cmd m = 3 ->
+    wake_body (w_proto w) (m_type m) = Some b ->
+    dget Z.eqb (w_nodes w) (m_node m) = Some n ->
+    (b = BHeartbeat20 -> exists hb, py_int (m_payload m) = Some hb) ->
+    dget key_eqb (w_set w) k = Some pm ->
+    ~ In (k, pm) (delivered (filter (of_node (m_node m)) (w_set w)) faults) ->
+    dget key_eqb (w_set (fst (fst (recv bat vlt now w faults line)))) k = Some pm.
+  Proof.
+    intros Hi Hd Hc Hb Hn Hhb Hp Hnd.
+    destruct (wake_step bat vlt now w faults line m n b Hi Hd Hc Hb Hn Hhb) as [_ [_ [H3 _]]].
+    rewrite H3, (pop_all_get _ _ _ (inv_nodup_set _ _ Hi)).
+    destruct (existsb _ _) eqn:E; [|exact Hp]. exfalso.
+    apply existsb_exists in E. destruct E as [[k' pm'] [Hin Hk]]. cbn [fst] in Hk.
+    apply key_eqb_spec in Hk. subst k'.
+    destruct (delivered_prefix (filter (of_node (m_node m)) (w_set w)) faults) as [rest Hrest].
+    assert (Hin' : In (k, pm') (w_set w)).
+    { assert (Hf : In (k, pm') (filter (of_node (m_node m)) (w_set w))).
+      { rewrite Hrest. apply in_or_app. left. exact Hin. }
+      apply filter_In in Hf. exact (proj1 Hf). }
+    pose proof (dget_In key_eqb key_eqb_spec _ _ _ Hp) as Hin0.
+    rewrite (NoDup_fst_inj _ _ _ _ (inv_nodup_set _ _ Hi) Hin0 Hin') in Hnd. exact (Hnd Hin).
+  Qed.
+
+  (* C12 end to end: a send that is accepted without being written (outcome Done, no write)
+     is held under its key, stays held through any history that has no wake of its node
+     and no later set command for the same (node, child, type), and is written — the line
+     of that very message — at the next fault-free wake of its node *)
+  Theorem held_is_delivered w faults m buffered ops line mw n bw f2 :
+    Inv vlt w -> wf_msg m -> (m_cmd m = 3 -> buffered = false) ->
+    let r := send_op w faults m buffered in
+    snd (fst r) = Done -> snd r = [] ->
+    let w1 := fst (fst r) in
+    Forall op_ok ops -> kept (msg_key m) w1 ops ->
+    let w2 := run_ops bat vlt now w1 ops in
+    decode (proto_of w2) line = DecOk mw -> m_cmd mw = 3 ->
+    wake_body (w_proto w2) (m_type mw) = Some bw ->
+    dget Z.eqb (w_nodes w2) (m_node mw) = Some n ->
+    (bw = BHeartbeat20 -> exists hb, py_int (m_payload mw) = Some hb) ->
+    Forall (fun x => x = false) f2 -> m_node mw = m_node m ->
+    let r2 := recv bat vlt now w2 f2 line in
+    In {| we_line := encode m; we_ok := true; we_msg := m |} (snd r2)
+    /\ dget key_eqb (w_set (fst (fst r2))) (msg_key m) = None
+    /\ snd (fst r2) = Yield mw.
+  Proof.
+    intros Hi Hwf Hb r Hdone Hnow w1 Hops Hkept w2 Hd Hc Hwb Hn Hhb Hf2 Hnode r2.
+    assert (Hk : 0 <= m_cmd m <= 4) by (destruct Hwf as [_ [_ [Hk _]]]; exact Hk).
+    pose proof (send_trichotomy_partial w faults m buffered Hk Hb) as Ht. fold r in Ht.
+    assert (Hheld : dget key_eqb (w_set w1) (msg_key m) = Some m).
+    { destruct Ht as [_ Hw| n0 _ _ _ _ _ Hh |e He _].
+      - rewrite Hw in Hnow. discriminate Hnow.
+      - exact Hh.
+      - rewrite He in Hdone. discriminate Hdone. }
+    destruct (step_op_inv bat vlt now w (OSend m buffered faults) Hi Hwf) as [Hi1 _].
+    change (world_after bat vlt now w (OSend m buffered faults)) with w1 in Hi1.
+    destruct (run_ops_inv bat vlt now ops w1 Hi1 Hops) as [Hi2 _]. fold w2 in Hi2.
+    pose proof (parked_history (msg_key m) ops w1 Hi1 Hops Hkept) as Hph. fold w2 in Hph.
+    rewrite Hheld in Hph.
+    apply (parked_released w2 f2 line mw n bw (msg_key m) m Hi2 Hd Hc Hwb Hn Hhb Hf2 Hph).
+    unfold node_of, msg_key. symmetry. exact Hnode.
+  Qed.
 End Parked.
